@@ -649,11 +649,125 @@ fn gen_valid_case(p: &mut Prng, id: &str, i: u64, cases: u64, max_states: usize,
     observe_valid(id, "valid", &b, w);
 }
 
-/// Machines at the documented size limit: many copies of one state (highly compressible, so the
-/// compressed form stays far below flate2's 32 KiB chunk): the largest count whose encoding
-/// still fits `MAX_DECOMPRESSED_SIZE` (even `i`), and one state more (odd `i`: `serialize`
-/// panics on its own size limit; outside the property's hypothesis, the model must predict it).
+/// A filler state whose bincode encoding is exactly `16 + x` bytes (`x <= 86`, `x mod 3 != 1`):
+/// a bare state is 16 bytes (3 option tags + 13 empty transition slots); a `Cancel` action adds
+/// 2, each counter adds 3, each one-transition vector (`Trans(0, 1.0)`) adds 6.
+fn filler_state(x: usize) -> Option<State> {
+    for c in (0..=13usize).rev() {
+        for b in 0..=2usize {
+            for a in 0..=1usize {
+                if 6 * c + 3 * b + 2 * a == x {
+                    let mut t = enum_map! { _ => vec![] };
+                    for e in EVENTS.iter().take(c) {
+                        t[*e] = vec![Trans(0, 1.0)];
+                    }
+                    let mut s = State::new(t);
+                    if a == 1 {
+                        s.action = Some(Action::Cancel { timer: Timer::All });
+                    }
+                    let ca = if b >= 1 { Some(Counter::new(Operation::Increment)) } else { None };
+                    let cb = if b >= 2 { Some(Counter::new_copy(Operation::Set)) } else { None };
+                    s.counter = (ca, cb);
+                    return Some(s);
+                }
+            }
+        }
+    }
+    None
+}
+
+/// A valid machine whose bincode encoding is EXACTLY `target` bytes: many copies of one
+/// generated state (highly compressible), then filler states whose sizes are chosen greedily so
+/// that the total hits the target. `None` if the construction misses (never observed; the caller
+/// reports it).
+fn machine_of_size(p: &mut Prng, target: usize) -> Option<Machine> {
+    let o = VOpts { noise: false, density: *p.pick(&[30u64, 60, 90]), rich: 100, long_vec: false };
+    let proto = gen_vstate(p, 1, &o, false);
+    let ints: &[u64] = &[1, 250, 251, 65536, u64::MAX];
+    let head = (*p.pick(ints), *p.pick(ints));
+    let mk = |states: Vec<State>| Machine {
+        allowed_padding_packets: head.0,
+        max_padding_frac: 0.5,
+        allowed_blocked_microsec: head.1,
+        max_blocking_frac: 0.5,
+        states,
+    };
+    let s1 = bincode_of(&mk(vec![proto.clone(); 300])).len();
+    let s2 = bincode_of(&mk(vec![proto.clone(); 301])).len();
+    let per = s2 - s1;
+    // leave room for two to four filler states; the state count stays in the 3-byte varint range
+    let base = s1 - 300 * per;
+    if target < base + 300 * per + 400 {
+        return None;
+    }
+    let k = (target - base - 150) / per;
+    if k + 8 >= 65536 {
+        return None;
+    }
+    let mut states = vec![proto.clone(); k];
+    let mut d = target - (base + k * per);
+    // a filler has size 16 + x with x representable (x mod 3 != 1, x <= 86); two fillers reach
+    // every residue
+    while d > 140 {
+        states.push(filler_state(33)?);
+        d -= 49;
+    }
+    let mut done = false;
+    'search: for x1 in 0..=86usize {
+        let Some(f1) = filler_state(x1) else { continue };
+        if 16 + x1 == d {
+            states.push(f1);
+            done = true;
+            break 'search;
+        }
+        for x2 in 0..=86usize {
+            if 32 + x1 + x2 == d {
+                if let Some(f2) = filler_state(x2) {
+                    states.push(f1);
+                    states.push(f2);
+                    done = true;
+                    break 'search;
+                }
+            }
+        }
+    }
+    if !done {
+        return None;
+    }
+    let m = mk(states);
+    if bincode_of(&m).len() != target || m.validate().is_err() {
+        return None;
+    }
+    Some(m)
+}
+
+/// Machines at the documented size limit. By case index (mod 6): encoding of exactly
+/// `MAX_DECOMPRESSED_SIZE` bytes, MAX-1, MAX-2, MAX-4096 (all must round-trip: `serialize`'s own
+/// `with_limit(MAX)` accepts them), MAX+1 (`serialize` panics on its size limit: outside the
+/// property's hypothesis, the model must predict it), and the largest whole number of copies of
+/// one state that fits.
 fn gen_limit_case(p: &mut Prng, id: &str, i: u64, w: &mut dyn Write) {
+    let max = MAX_DECOMPRESSED_SIZE;
+    let (tag, target): (&str, Option<usize>) = match i % 6 {
+        0 => ("valid exact-max", Some(max)),
+        1 => ("valid max-1", Some(max - 1)),
+        2 => ("valid max-2", Some(max - 2)),
+        3 => ("valid max-4096", Some(max - 4096)),
+        4 => ("valid max+1", Some(max + 1)),
+        _ => ("valid at-limit", None),
+    };
+    if let Some(t) = target {
+        match machine_of_size(p, t) {
+            Some(m) => observe_valid(id, tag, &bincode_of(&m), w),
+            None => {
+                // never silent: the driver reports a block without `m` as a PARSE problem
+                let _ = writeln!(w, "case {} {}", id, tag);
+                let _ = writeln!(w, "bad size-construction-missed {}", t);
+                let _ = writeln!(w, "end");
+            }
+        }
+        return;
+    }
     let o = VOpts { noise: false, density: 60, rich: 100, long_vec: false };
     let proto = gen_vstate(p, 1, &o, false);
     let mk = |k: usize| Machine {
@@ -664,16 +778,15 @@ fn gen_limit_case(p: &mut Prng, id: &str, i: u64, w: &mut dyn Write) {
         states: vec![proto.clone(); k],
     };
     let per = (bincode_of(&mk(2)).len() - bincode_of(&mk(1)).len()).max(16);
-    let mut k = MAX_DECOMPRESSED_SIZE / per + 2;
-    while bincode_of(&mk(k)).len() > MAX_DECOMPRESSED_SIZE {
+    let mut k = max / per + 2;
+    while bincode_of(&mk(k)).len() > max {
         k -= 1;
     }
-    let k = if i % 2 == 0 { k } else { k + 1 };
     let m = mk(k);
     if m.validate().is_err() {
         return;
     }
-    observe_valid(id, if i % 2 == 0 { "valid at-limit" } else { "valid over-limit" }, &bincode_of(&m), w);
+    observe_valid(id, tag, &bincode_of(&m), w);
 }
 
 // ---------------------------------------------------------------------------------------------
@@ -904,7 +1017,14 @@ fn gen_bomb_case(p: &mut Prng, id: &str, i: u64, big: u64, w: &mut dyn Write) {
     let m = small_machine(p);
     let raw = bincode_of(&m);
     let mib = 1usize << 20;
-    let (tag, payload): (&str, Vec<u8>) = match i % 8 {
+    let (tag, payload): (&str, Vec<u8>) = match i % 9 {
+        8 => {
+            // a valid machine of exactly MAX bytes followed by more data: the buffer is full
+            // after the machine, the rest of the stream is never read
+            let mut v = machine_of_size(p, mib).map(|m| bincode_of(&m)).unwrap_or_else(|| raw.clone());
+            v.extend(std::iter::repeat(0u8).take(4096));
+            ("machine-max+zeros", v)
+        }
         0 => ("zeros-1MiB+1", vec![0u8; mib + 1]),
         1 => ("zeros-4MiB", vec![0u8; 4 * mib]),
         2 => {
